@@ -1,7 +1,6 @@
 package ecs
 
 import (
-	"math"
 	"reflect"
 	"unsafe"
 )
@@ -36,9 +35,9 @@ func get[T any](storage *componentStorage, index *entityIndex) *T {
 // copyPtr copies from one pointer to another.
 // This is not GC-safe. Use only for trivial/value types.
 func copyPtr(src, dst unsafe.Pointer, itemSize uintptr) {
-	dstSlice := (*[math.MaxInt32]byte)(dst)[:itemSize:itemSize]
-	srcSlice := (*[math.MaxInt32]byte)(src)[:itemSize:itemSize]
-	copy(dstSlice, srcSlice)
+	// Not limited to 2 GiB, in contrast to a view through a fixed-size array type:
+	// whole columns are copied this way.
+	copy(unsafe.Slice((*byte)(dst), itemSize), unsafe.Slice((*byte)(src), itemSize))
 }
 
 // copyValue copies an item between two reflect arrays.
